@@ -400,7 +400,12 @@ def check_c08(run: Run, prog: Program) -> None:
         "origin, and the two other users of the idiom), the outer factors are a translation and its inverse; plus a necessary condition "
         "of the affine embedding: the dtype of every matrix assembled by item assignment depends on all operands stored into it (no silent "
         "truncation of a fractional offset next to an integer matrix); and the constructors write into no process-wide object (module constant, "
-        "class cache, result of a memoised function), so a later constructor call cannot change an earlier result. Everything numeric (Rodrigues formula, frames, conic map) is NOT decided."
+        "class cache, result of a memoised function), so a later constructor call cannot change an earlier result. "
+        "(E18) The constructors themselves are read as closed forms over their parameters: affine_transform as the block matrix [[matrix, offset], [0, 1]], "
+        "translation / scaling by what they hand to it, rotation as [[cos, -sin], [sin, cos]] and as Rodrigues' formula with a unit axis, reflection as "
+        "the Householder matrix of the unit normal, and Transformation.from_points as a word over the frame matrices that sends all n+2 sources to their "
+        "targets. NOT decided: the numeric content of cos/sin/norm/solve/inv themselves, the sense of rotation about an axis, the point on the mirror used "
+        "for the conjugation of reflection, the conic construction inside from_points_and_conics (only the orientation of the pairs it hands on)."
     )
     prog.func("reflection")
     prog.func("translation")
@@ -421,6 +426,10 @@ def check_c08(run: Run, prog: Program) -> None:
     if len(present) < 6:
         run.error(f"transformation constructors not found: {sorted(ctors - present)}")
     run.stats["constructor_write_constructs"] = purity.rule_purity(run, prog, only_entries=ctors, shared_only=True)
+    from geolint import ctorforms
+
+    run.stats["constructor_paths_read"] = ctorforms.rule_all(run, prog)
+    run.floor("constructor closed forms (obligations found, decided or not)", sum(1 for o in run.obligations if o.rule.startswith("E18")), 8)
     refl = prog.func("reflection")
     in_refl = [o for o in run.obligations if o.rule == "E8" and o.construct == refl.short]
     if not in_refl:
@@ -600,7 +609,7 @@ def check_c20(run: Run, prog: Program) -> None:
         "satisfies x^3 = -d/a). NOT decided: which inputs reach which branch (thresholds), the numpy fall-backs, the epsilon-diagram branch of adjugate, "
         "null_space/orth, the trigonometric branches of roots and whether repeated roots are listed with their multiplicity, is_multiple, matmul/matvec/outer."
     )
-    polyform.rule_det(run, prog), polyform.rule_adjugate(run, prog), polyform.rule_inv(run, prog), polyform.rule_hat(run, prog), polyform.rule_roots(run, prog)
+    polyform.rule_det(run, prog), polyform.rule_adjugate(run, prog), polyform.rule_inv(run, prog), polyform.rule_hat(run, prog), polyform.rule_roots(run, prog), polyform.rule_roots_domain(run, prog)
     n = sum(1 for o in run.obligations if o.rule.startswith("E12."))
     run.stats["closed_form_obligations"] = n
     run.floor("closed-form obligations (instances found, decided or not)", n, 4)
